@@ -29,7 +29,7 @@ MANIFEST = {
               "induce."),
     "note": ("Trusted: rustc front end; the abstract evaluator lib/abseval.py; std::env::var_os / Option / OsStr::is_empty "
              "semantics as modelled there; is_terminal_polyfill. Not analysed: cfg(windows) code."),
-    "technique": "static analysis: truth-table normalisation of the decision chain over opaque atoms, finite value-class evaluation of the environment probes, impl tables",
+    "technique": "static analysis: truth-table normalisation of the decision chain over opaque atoms, finite value-class evaluation of the environment probes, impl tables, the ColorChoice codec by evaluation over its whole domain",
 }
 
 Q = "anstyle_query::"
